@@ -160,6 +160,9 @@ def type_errors(ctx, region, case_base):
         ("seconds", lambda r: r.seconds[0:"1"]), ("millis", lambda r: r.millis[0.5:10]), ("millis", lambda r: r.millis[0:10.0]),
         ("millis", lambda r: r.millis[0:10:2]), ("millis", lambda r: r.millis[5]), ("millis", lambda r: r.millis["1":2]),
         ("samples", lambda r: r[0:2:None] if False else r[slice(0, 2, 2)]),
+        # a wrong-typed bound / a step next to a legal bound of several thousand digits is still a TypeError
+        ("samples", lambda r: r[10 ** 5000 : "a"]), ("samples", lambda r: r[0 : 10 ** 5000 : 2]), ("seconds", lambda r: r.seconds[-(10 ** 5000) : "1"]),
+        ("millis", lambda r: r.millis[100.0 : 10 ** 5000]), ("samples", lambda r: r[0.5 : 10 ** 5000]),
         # wrong-typed bounds that happen to be falsy must be rejected like any other
         ("samples", lambda r: r[0.0:5]), ("samples", lambda r: r["":5]), ("samples", lambda r: r[[]:5]), ("samples", lambda r: r[():2]),
         ("samples", lambda r: r[0:0.0]), ("millis", lambda r: r.millis[0.0:20]), ("millis", lambda r: r.millis[0:0.0]),
@@ -225,6 +228,18 @@ def run_shard(ctx):
             #  the unchanged code raises OverflowError there - noted in DESIGN.md, not generated)
             return rng.choice((None, 0, 1, -1, d, -d, d + 1, rng.randint(-d - 3, d + 3), 10 ** 9, 10 ** 300, -(10 ** 300)))
 
+        # a view that is kept while other regions' views are looked up still belongs to its own region
+        other_region, _ = mk_region(rng, rng.randint(0, 9), width, channels, rate)
+        kept_s, kept_m = region.seconds, region.millis
+        other_region.seconds, other_region.millis, other_region.sec, other_region.ms
+        a_, b_ = tb(), tb()
+        if (a_ is None or abs(a_) < 1e9) and (b_ is None or abs(b_) < 1e9):
+            ctx.count("kept_views_checked")
+            if bytes(kept_s[a_:b_]) != bytes(region.seconds[a_:b_]) or kept_s[a_:b_].sampling_rate != rate:
+                ctx.violation("kept-view-slices-another-region", {"case": dict(base, view="seconds", a=a_, b=b_)})
+            ma_, mb_ = mb(), mb()
+            if bytes(kept_m[ma_:mb_]) != bytes(region.millis[ma_:mb_]):
+                ctx.violation("kept-view-slices-another-region", {"case": dict(base, view="millis", a=ma_, b=mb_)})
         for k_ in range(3):
             sample_slice(ctx, region, samples, ib(), ib(), base, dress=rng.choice((0, 0, 1, 2)))
             time_slice(ctx, region, samples, tb(), tb(), base, "seconds", via_temporary=(k_ == 1), dress=rng.choice((0, 0, 1, 2)))
@@ -251,7 +266,7 @@ def replay(ctx, case):
 def inconclusive(merged, tier):
     c = merged["counters"]
     need = ["sample_slices", "sample_slices_negative_bound", "seconds_slices", "millis_slices", "millis_vs_seconds_compared",
-            "type_error_cases", "exhaustive_sample_slices", "slices_through_a_temporary_region"]
+            "type_error_cases", "exhaustive_sample_slices", "slices_through_a_temporary_region", "kept_views_checked"]
     return [f"monitor never observed {k}" for k in need if c.get(k, 0) == 0]
 
 
